@@ -102,6 +102,15 @@ class Ctx:
     def note(self, msg):
         self.notes.append(norm_text(msg))
 
+    def unknown(self, rule, instance, where, detail):
+        """The rule does not recognise the construct it is about (an idiom it was not written for). This is never a
+        violation: the analysis continues, and unless a specific violation is found elsewhere the run ends as
+        ANALYSIS-ERROR (exit 2)."""
+        self.unknowns = getattr(self, "unknowns", [])
+        self.unknowns.append("%s %s at %s: %s" % (rule, norm_text(instance), where, norm_text(detail)))
+        self.obligations.append({"rule": rule, "instance": norm_text(instance), "where": where, "status": "not-understood",
+                                 "detail": detail})
+
     def floor(self, rule, what, count, minimum):
         """Fail closed when a rule matched fewer instances than were confirmed by hand."""
         self.extra.setdefault("instance_floors", {})["%s:%s" % (rule, what)] = {
